@@ -48,6 +48,10 @@ class SimpleEventgroup:
         self.log = service.log.getChild(f"evgrp-{id:04x}")
 
         self.subscribed_endpoints: typing.Set[header.EndpointOption[typing.Any]] = set()
+        # several subscriptions (differing in their counter) may name the same endpoint
+        self._subscriptions_per_endpoint: typing.Counter[
+            header.EndpointOption[typing.Any]
+        ] = collections.Counter()
 
         self.notification_task: typing.Optional[asyncio.Task[None]] = None
         if interval:
@@ -134,6 +138,7 @@ class SimpleEventgroup:
 
         Triggers a notification of the current value to be sent to the subscriber.
         """
+        self._subscriptions_per_endpoint[endpoint] += 1
         self.subscribed_endpoints.add(endpoint)
         self.has_clients.set()
         # send initial eventgroup notification
@@ -146,6 +151,11 @@ class SimpleEventgroup:
         Called by :class:`SimpleService` when a subscription for this eventgroup
         runs out.
         """
+        if self._subscriptions_per_endpoint[endpoint] > 1:
+            # another subscription still names this endpoint
+            self._subscriptions_per_endpoint[endpoint] -= 1
+            return
+        self._subscriptions_per_endpoint.pop(endpoint, None)
         self.subscribed_endpoints.remove(endpoint)
         if not self.subscribed_endpoints:
             self.has_clients.clear()
